@@ -192,6 +192,12 @@ pub fn run_c05(p: &mut Prng, t: Tier, i: usize, sink: &mut Sink) {
         let encryptor = if p.chance(3, 10) { "ref" } else { "lib" };
         let pfx = format!("s{k}");
         let mut ops = base_ops(p, &pfx, &msg, order, comp, encryptor);
+        if p.chance(1, 12) {
+            // the point at infinity handed over as the recipient's key (step A3 must refuse)
+            let mut e = enc_op(&pfx, "lib", order, comp, "inf", rng_json(&uniform_script(p, 1)));
+            e["ct"] = json!(format!("{pfx}.ct_inf"));
+            ops.push(e);
+        }
         if p.chance(1, 5) {
             ops.extend(damaged_first(p, &dec_op(&pfx, order, comp), "ct", 33 + 32 + 1));
         }
